@@ -79,8 +79,10 @@ func (e *lcEnv) providerID() string {
 
 func VerifC14_Lifecycle() {
 	e := lcSetup()
+	// quick: 3 reconciles; writes fail with a generic error or NotFound. thorough: 3 reconciles with every fault kind
+	// (4 reconciles exhaust the path budget of 200000)
 	if verifrt.Bound("allFaultKinds", 0, 1) == 0 {
-		e.kc.FaultMax = stubs.FaultNotFound              // writes fail with a generic error or NotFound (conflicts: thorough tier)
+		e.kc.FaultMax = stubs.FaultNotFound              // conflicts: thorough tier
 		e.cp.CreateErrors = []int{stubs.CreateOther} // capacity errors are VerifC14_CapacityErrorsDelete's subject
 	}
 	e.cp.OnCreate = func(nc *v1.NodeClaim) {
@@ -90,7 +92,7 @@ func VerifC14_Lifecycle() {
 		verifrt.Reach("created")
 	}
 	capacityError := false
-	rounds := verifrt.Bound("reconciles", 3, 4)
+	rounds := 3
 	for r := 0; r < rounds; r++ {
 		before := len(e.cp.Log)
 		e.reconcile()
